@@ -9,6 +9,8 @@ import (
 	"runtime"
 	"runtime/debug"
 	"runtime/pprof"
+	"sort"
+	"strconv"
 	"strings"
 	"time"
 
@@ -77,8 +79,35 @@ func main() {
 	cross := flag.String("cross", "", "comma-separated secondary solvers for differential check (z3-new,cvc5)")
 	replay := flag.String("replay", "", "replay a violation json in concrete mode")
 	cpuprof := flag.String("cpuprofile", "", "write cpu profile")
+	fnprof := flag.Bool("fnprofile", false, "print interpreted instructions per function (slow)")
 	flag.Parse()
-	debug.SetGCPercent(800)
+	if *fnprof {
+		fnProfile = map[*ssa.Function]int{}
+		defer func() {
+			type kv struct {
+				f *ssa.Function
+				n int
+			}
+			var l []kv
+			tot := 0
+			for f, n := range fnProfile {
+				l = append(l, kv{f, n})
+				tot += n
+			}
+			sort.Slice(l, func(i, j int) bool { return l[i].n > l[j].n })
+			for i, e := range l {
+				if i >= 40 {
+					break
+				}
+				fmt.Fprintf(os.Stderr, "%10d %5.1f%% %s\n", e.n, 100*float64(e.n)/float64(tot), e.f.String())
+			}
+		}()
+	}
+	gcp := 100
+	if v, err := strconv.Atoi(os.Getenv("VERIF_GOGC")); err == nil {
+		gcp = v
+	}
+	debug.SetGCPercent(gcp)
 	if *cpuprof != "" {
 		f, _ := os.Create(*cpuprof)
 		pprof.StartCPUProfile(f)
